@@ -112,6 +112,10 @@ class NoSleep:
     def time(self):
         return 1700000000.0
 
+    def __getattr__(self, name):
+        import time as _t
+        return getattr(_t, name)
+
 
 # ---------------------------------------------------------------------------
 # seams that hold whichever way the code under test spells the call
@@ -191,8 +195,16 @@ def seam_stdout_names(buf):
     return [(m, n, buf) for m, n in names_where("stdout", lambda n, v: v is _REAL_STDOUT)]
 
 
-def run_main(main, argv, stdin=None, patches=()):
-    """Call a tool's main() with scripted argv/stdin, capture stdout/stderr and the exit code."""
+def run_main(main, argv, stdin=None, patches=(), cwd=None):
+    """Call a tool's main() with scripted argv/stdin, capture stdout/stderr and the exit code.
+    cwd: working directory for the call (paths given relative to it), restored afterwards."""
+    if cwd is not None:
+        here = os.getcwd()
+        os.chdir(cwd)
+        try:
+            return run_main(main, argv, stdin, patches)
+        finally:
+            os.chdir(here)
     r = Result()
     r.code, r.exc, r.gone = None, None, False
     out, err = io.StringIO(), io.StringIO()
@@ -275,10 +287,29 @@ class TempDir:
     def listing(self):
         return sorted(os.listdir(self.path))
 
+    def walk(self):
+        """relative paths of every regular file and symbolic link below the directory"""
+        out = []
+        for root, dirs, files in os.walk(self.path):
+            for n in files:
+                out.append(os.path.relpath(os.path.join(root, n), self.path))
+        return sorted(out)
+
+    def symlink(self, target_rel, name):
+        os.symlink(os.path.join(self.path, target_rel), self.file(name))
+        return self.file(name)
+
+    def write_in(self, rel, content):
+        p = self.file(rel)
+        os.makedirs(os.path.dirname(p), exist_ok=True)
+        return self.write(rel, content)
+
     def clear(self):
         for n in os.listdir(self.path):
             p = os.path.join(self.path, n)
-            if os.path.isdir(p):
+            if os.path.islink(p):
+                os.unlink(p)
+            elif os.path.isdir(p):
                 shutil.rmtree(p, ignore_errors=True)
             else:
                 os.unlink(p)
